@@ -106,6 +106,8 @@ def gen(rng, tier):
                                   'skip_import'])
                       for _ in range(rng.randint(0, 3))],
           'bad_at': rng.randint(0, max(len(binds), 1))}
+  case['imports'] = rng.sample(['vsim_mods.alpha', 'vsim_mods.beta',
+                                'vsim_mods.beta.gamma'], rng.randint(0, 3))
   if rng.random() < 0.4:
     case['late_at'] = rng.randint(1, max(len(binds), 1))
   if rng.random() < 0.25:
@@ -150,6 +152,10 @@ def _has_ref(v):
   return False
 
 
+def src_lines(text):
+  return text.split('\n')
+
+
 def typed(x):
   """Value with types, recursively (references by their stable text)."""
   if isinstance(x, (list, tuple)):
@@ -192,6 +198,8 @@ def run(case):
 
   def setup(late=True):
     world.reset()
+    probes.plant_module('vsim_mods.alpha')
+    probes.plant_module('vsim_mods.beta.gamma')
     if late:
       for full in LATE_PROBES:
         register_one(full)
@@ -215,6 +223,11 @@ def run(case):
 
   def apply(order, record_texts):
     texts = []
+    # recorded imports: parsed in the given order the first time, reversed the
+    # second time (the text must not depend on it)
+    imps = case.get('imports', [])
+    for mname in (imps if record_texts else list(reversed(imps))):
+      gin.parse_config('import %s' % mname)
     for idx, m in enumerate(case['macros']):
       val = pool[m['vi']]
       obj, text, rep = _materialise(val)
@@ -286,6 +299,17 @@ def run(case):
     typed_a = {k: typed(x) for k, x in store_a.items()}
     if any(l.endswith('\\') for l in S.split('\n')):
       stats['multiline'] += 1
+    try:
+      cp = gin.config_parser
+      imported = {st.module for st in cp.ConfigParser(S, c18._StubDelegate())  # pylint: disable=protected-access
+                  if isinstance(st, cp.ImportStatement)}
+    except Exception:  # pylint: disable=broad-except
+      imported = None     # (1) below reports texts that do not parse
+    for mname in case.get('imports', []):
+      if imported is not None and mname not in imported:
+        v('C06.imports_recorded', [],
+          'the recorded import of %s is not in config_str() (under any '
+          'alias):\n%s' % (mname, S))
     # (7) markdown keeps every binding line verbatim
     md = gin.config.markdown(S).split('\n')
     src = S.split('\n')
